@@ -245,8 +245,11 @@ def h04b(c, K=2, focus="C04", variants=("default", "full-match", "bpe-off", "no-
 
 
 HARNESSES = [
-    Harness("H04b", h04b, quick=dict(K=1), thorough=dict(K=2), pattern="P3 bounded history (auditing strategy)", requires=["audited", "placed", "amended"],
+    Harness("H04b", h04b, quick=dict(K=1), thorough=dict(K=1), pattern="P3 bounded history (auditing strategy)", requires=["audited", "placed", "amended", "second-request-rejected"],
             wall_s=(300, 3000), max_paths=(400000, 6000000), selfcheck=False,
+            outside=["more than K+1 updates; one price level per side; order prices on 5 ladder points (sizes, traded volumes: every 2dp value)"]),
+    Harness("H04b-K2", h04b, tiers=("thorough",), thorough=dict(K=2, variants=("default", "full-match")), pattern="P3 bounded history (auditing strategy)",
+            requires=["audited", "placed", "amended"], wall_s=(300, 3000), max_paths=(400000, 8000000), selfcheck=False,
             outside=["more than K+1 updates; one price level per side; order prices on 5 ladder points (sizes, traded volumes: every 2dp value)"]),
     Harness("H04a", h04a, quick=dict(max_frags=1), thorough=dict(max_frags=2), pattern="P2 inductive step",
             requires=["replacement-created", "voided", "lapsed", "passive-fill", "cancelled", "sp-matched"], wall_s=(300, 3000),
